@@ -146,6 +146,9 @@ def detector_configs():
     return [
         Cfg("PELT/plain", S("PELT", cost=L2, penalty_scale=1.0, min_segment_length=1), ("plain", {"min_segment_length": 2})),
         Cfg("PELT/swap", S("PELT", cost=L2, penalty_scale=1.0, min_segment_length=2), ("swap", "cost", GV), quick=False),
+        # a cost whose min_size is FITTED state (p + 1): a fit on the two-column data set must leave no trace when the one-column one is scored
+        Cfg("PELT/GaussianCovCost", S("PELT", cost=S("GaussianCovCost", param=None), penalty_scale=1.0, min_segment_length=2),
+            ("plain", {"penalty_scale": 0.5})),
         Cfg("PELT/nested", S("PELT", cost=L2, penalty_scale=1.0, min_segment_length=1), ("nested", "cost__param", None, 0.5), quick=False),
         Cfg("PELT/default-cost", S("PELT", cost=None, penalty_scale=1.0, min_segment_length=2), ("plain", {"penalty_scale": 0.2}),
             quick=False),
@@ -231,6 +234,8 @@ def pair_configs():
              S("PELT", cost=r, **pelt), deep=True),
         Pair("PELT+PELT/L2Cost", {"s": S("L2Cost")}, S("PELT", cost=r, **pelt), S("PELT", cost=r, penalty_scale=0.3, min_segment_length=2),
              quick=False),
+        Pair("PELT+PELT/GaussianCovCost", {"s": S("GaussianCovCost", param=None)}, S("PELT", cost=r, penalty_scale=1.0, min_segment_length=2),
+             S("PELT", cost=r, penalty_scale=0.5, min_segment_length=3)),
         Pair("CAPA+MVCAPA/L2Saving", {"s": S("L2Saving")}, S("CAPA", collective_saving=r, point_saving=r, **capa),
              S("MVCAPA", collective_saving=r, point_saving=r, **capa), quick=False),
         Pair("MovingWindow+SeededBinarySegmentation/ChangeScore", {"s": S("ChangeScore", cost=S("L2Cost"))},
